@@ -97,13 +97,14 @@ Definition count_ (bomb : option Z) (s : it) : res nat * option Z * list ev :=
   ((if fired then Panicked else Ret n), bomb', evs).
 
 (* last(mut self) = self.next_back(); then self is dropped.  If that drop
-   panics the already computed return value is dropped by the unwinder. *)
+   panics, the value already moved out never reaches the caller and rustc's
+   unwinding does not destroy it either (observed on rustc 1.95, validated by
+   the correspondence): it leaks. *)
 Definition last_ (bomb : option Z) (s : it) : res (option Z) * option Z * list ev :=
   let '(r, s1, evs1) := next_back s in
   let '(fired, bomb', evs) := drop_it bomb s1 in
   if fired then
-    (Panicked, bomb', evs1 ++ evs ++
-       match r with Ret (Some x) => [EDrop x] | _ => [] end)
+    (Panicked, bomb', match r with Ret (Some x) => [ELeak x] | _ => [] end ++ evs)
   else (r, bomb', evs1 ++ evs).
 
 (* as_slice / as_mut_slice: the live range *)
@@ -204,3 +205,55 @@ Fixpoint q_run (q : list Z) (ops : list op) : list out :=
   | [] => []
   | o :: r => let '(v, q') := q_step q o in v :: q_run q' r
   end.
+
+(* ---------- histories with a panicking destructor (C05) ----------
+   The caller catches every unwind and keeps using the iterator; finally the
+   iterator is dropped (or consumed by count / last). *)
+
+Inductive dop : Type := DNext | DNextBack | DNth (n : Z) | DNthBack (n : Z).
+Inductive dfin : Type := FDrop | FCount | FLast.
+
+Definition dstep (bomb : option Z) (s : it) (o : dop) : R (option Z) :=
+  match o with
+  | DNext => let '(r, s', e) := next s in (r, s', bomb, e)
+  | DNextBack => let '(r, s', e) := next_back s in (r, s', bomb, e)
+  | DNth n => nth_ bomb s n
+  | DNthBack n => nth_back_ bomb s n
+  end.
+
+(* the pre-fix code, for the refutation lemmas *)
+Definition dstep_buggy (bomb : option Z) (s : it) (o : dop) : R (option Z) :=
+  match o with
+  | DNext => let '(r, s', e) := next s in (r, s', bomb, e)
+  | DNextBack => let '(r, s', e) := next_back s in (r, s', bomb, e)
+  | DNth n => nth_buggy bomb s n
+  | DNthBack n => nth_back_buggy bomb s n
+  end.
+
+Section DRun.
+  Variable stepf : option Z -> it -> dop -> R (option Z).
+
+  Fixpoint drun (bomb : option Z) (s : it) (ops : list dop)
+    : list (res (option Z) * list ev) * it * option Z :=
+    match ops with
+    | [] => ([], s, bomb)
+    | o :: r =>
+      let '(v, s', bomb', e) := stepf bomb s o in
+      let '(outs, s'', bomb'') := drun bomb' s' r in
+      ((v, e) :: outs, s'', bomb'')
+    end.
+End DRun.
+
+Definition dfinish (bomb : option Z) (s : it) (f : dfin) : res (option Z) * list ev :=
+  match f with
+  | FDrop => let '(fired, _, e) := drop_it bomb s in ((if fired then Panicked else Ret None), e)
+  | FCount => let '(r, _, e) := count_ bomb s in
+              (match r with Ret n => Ret (Some (Z.of_nat n)) | Panicked => Panicked | UB => UB end, e)
+  | FLast => let '(r, _, e) := last_ bomb s in (r, e)
+  end.
+
+(* all events of a history: the steps, then the final consumption *)
+Definition dtrace (stepf : option Z -> it -> dop -> R (option Z))
+           (bomb : option Z) (a : list Z) (ops : list dop) (f : dfin) : list ev :=
+  let '(outs, s, bomb') := drun stepf bomb (into_iter a) ops in
+  flat_map snd outs ++ snd (dfinish bomb' s f).
